@@ -298,3 +298,15 @@ def layout_fallback(relpaths, work, log):
         failed_checks = re.findall(r'Failed Checks: (.*)', r['output'])
         out[rel] = dict(harness=name, status=r['status'], bytes=vals, domain=domain, failed_checks=failed_checks[:5], output=r['output'][-2500:])
     return out
+
+
+def concrete_playback(name, work, log, extra_args=()):
+    """re-run one failed harness alone with Kani's concrete playback; returns (list of concrete byte vectors or None, failed checks)"""
+    res = run_harnesses([name], os.path.join(work, 'kpb'), log, timeout=1800, jobs=1,
+                        extra_args=list(extra_args) + ['-Z', 'concrete-playback', '--concrete-playback=print'])
+    r = res[name]
+    vals = None
+    m = re.search(r'let concrete_vals: Vec<Vec<u8>> = vec!\[(.*?)\];', r['output'], re.S)
+    if m:
+        vals = [[int(x) for x in re.findall(r'\d+', v)] for v in re.findall(r'vec!\[([^\]]*)\]', m.group(1))]
+    return vals, re.findall(r'Failed Checks: (.*)', r['output'])[:5]
